@@ -39,9 +39,10 @@ Inductive op :=
 (* result of a completed op.  The index arguments `i` are GHOST (absolute position of the element
    in the unbounded sequence of claims); the runner does not print them. *)
 Inductive res :=
-| RPushOk (i : Z) | RPushFail | RPopOk (i v : Z) | RPopFail
-| RSent (i : Z) | RRecv (i v : Z)
-| RPushB (i n : Z) | RPopB (i : Z) (vs : list Z).
+| RPushOk (i v : Z) | RPushFail | RPopOk (i v : Z) | RPopFail
+| RSent (i v : Z) | RRecv (i v : Z)
+| RPushB (i : Z) (ws : list Z)       (* the values actually pushed (a prefix of the argument) *)
+| RPopB (i : Z) (vs : list Z).
 
 Section Thr.
   Context {PC : Type}.
